@@ -381,12 +381,14 @@ def _is_unwind(c):
     return c["class"] == "unwind" or "unwinding assertion" in c["description"]
 
 
-def _playback_block(text):
-    m = re.search(r"Concrete playback unit test for `[^`]*`:\s*\n```\n(.*?)\n```", text, re.S)
-    if m:
-        return m.group(1)
-    m = re.search(r"(#\[test\]\s*\nfn kani_concrete_playback.*?\n\})", text, re.S)
-    return m.group(1) if m else None
+def _playback_blocks(text):
+    """every `Concrete playback unit test` Kani printed: [{kind, description, unit_test}] (one per failed check / satisfied cover)"""
+    out = []
+    for m in re.finditer(r"Concrete playback unit test for `[^`]*`:\s*\n```\n(.*?)\n```", text, re.S):
+        blk = m.group(1)
+        h = re.search(r"/// Check for `([^`]*)`: \"(.*)\"\s*$", blk, re.M)
+        out.append({"kind": h.group(1) if h else None, "description": h.group(2) if h else None, "unit_test": blk})
+    return out
 
 
 def _decode_playback(block):
@@ -420,7 +422,9 @@ def run_harness(meta, h, tier):
     timeout = over.get("timeout", h.get("timeout", 240))
     full = meta["full_prefix"] + name
     flags = list(cfg.get("kani_flags", [])) + list(h.get("kani_flags", []))
-    base = ["cargo", "kani", "--output-format=regular", "--harness", full, "--exact"] + flags
+    # concrete playback is requested in the SAME run: it costs nothing when all checks pass (CBMC prints traces only for failed
+    # checks and satisfied covers) and saves a second, equally long run when a check fails
+    base = ["cargo", "kani", "--output-format=regular", "--harness", full, "--exact", "-Z", "concrete-playback", "--concrete-playback=print"] + flags
     if unwind is not None:
         base += ["--unwind", str(unwind)]
     cmd_s = "cd %s && CARGO_NET_OFFLINE=true %s" % (meta["dir"], " ".join(base))
@@ -430,19 +434,9 @@ def run_harness(meta, h, tier):
         f.write("$ %s\n# rc=%s timeout=%s wall=%.1fs\n" % (cmd_s, r["rc"], r["timeout"], r["wall_s"]))
         f.write(text)
     res = parse_output(text)
-    res.update({"harness": name, "cmd": cmd_s, "rc": r["rc"], "timeout": r["timeout"], "wall_s": round(r["wall_s"], 1), "playback": None,
+    res.update({"harness": name, "cmd": cmd_s, "rc": r["rc"], "timeout": r["timeout"], "wall_s": round(r["wall_s"], 1),
+                "playback": [b for b in _playback_blocks(text) if b["kind"] != "cover"],
                 "unwind": unwind, "timeout_s": timeout, "raw_tail": text[-3000:]})
-    failed = [c for c in res["checks"] if c["status"] in FAIL and not _is_unwind(c)]
-    if failed and not r["timeout"]:
-        pb = base + ["-Z", "concrete-playback", "--concrete-playback=print"]
-        r2 = _run(pb, meta["dir"], timeout, None)
-        t2 = r2["stdout"] + "\n" + r2["stderr"]
-        with open(os.path.join(meta["dir"], "logs", name + ".playback.txt"), "w") as f:
-            f.write("$ %s\n# rc=%s timeout=%s wall=%.1fs\n" % (" ".join(pb), r2["rc"], r2["timeout"], r2["wall_s"]))
-            f.write(t2)
-        blk = _playback_block(t2)
-        res["playback"] = {"cmd": " ".join(pb), "unit_test": blk, "values_in_order_of_kani_any_calls": _decode_playback(blk),
-                           "note": None if blk else ("concrete playback produced no test (timeout=%s rc=%s)" % (r2["timeout"], r2["rc"]))}
     return res
 
 
@@ -586,11 +580,21 @@ def _run_kani_unit(here, repo, name, tier):
                 it = _item_at(lib_lines, ln)
                 if it:
                     source = "%s:%d (item %s, lines %d-%d)" % (it["path"], it["src_line"], it["id"], it["lines"][0], it["lines"][1])
-            pb = res["playback"] or {}
+            blk = None
+            for b in res["playback"]:
+                if b["description"] is not None and (b["description"] == c["description"] or b["description"].strip('"') == c["description"]):
+                    blk = b
+                    break
+            note = None
+            if blk is None and res["playback"]:
+                blk = res["playback"][0]
+                note = "no playback test is labelled with this check; showing the one Kani printed for: %s" % blk["description"]
+            elif blk is None:
+                note = "Kani printed no concrete playback test for this harness"
             vo = {"check": c["id"], "status": c["status"], "description": c["description"], "location": c["location"], "harness": h["name"],
                   "harness_claim": h.get("claim"), "complete": complete, "bound": None if complete else h.get("bound"),
-                  "counterexample": pb.get("values_in_order_of_kani_any_calls"), "concrete_playback_unit_test": pb.get("unit_test"),
-                  "playback_cmd": pb.get("cmd"), "playback_note": pb.get("note"), "cmd": res["cmd"],
+                  "counterexample": _decode_playback(blk["unit_test"]) if blk else None, "concrete_playback_unit_test": blk["unit_test"] if blk else None,
+                  "playback_note": note, "cmd": res["cmd"],
                   "all_failed_checks_of_harness": [{"id": x["id"], "description": x["description"], "location": x["location"]} for x in real_failed][:12]}
             r["failures"].append({"id": "%s/%s | %s | %s" % (name, h["name"], c["class"], c["description"][:160]), "function": "%s/%s" % (name, fn_id),
                                   "kind": c["class"], "clause": c["description"][:300], "clause_origin": "%s harness %s" % (name, h["name"]), "site": site[:300],
